@@ -188,3 +188,192 @@ Lemma entry_persisted_app : forall log e, entry_persisted (log ++ [e]) e = true.
 Proof.
   intros log e. unfold entry_persisted. rewrite existsb_app. simpl. rewrite Nat.eqb_refl. rewrite orb_true_r. reflexivity.
 Qed.
+
+(* ---- one step of the driver preserves the invariant and makes progress ------------------------------------ *)
+Ltac d_cbn := cbn [to_state of_state finish set_th release_ik with_pc persisted v_last v_lasttx v_pending v_batch v_iks v_refs v_revs v_locks v_queue v_cs v_uid gen threads published u_persisted u_last u_lasttx u_pending u_batch u_iks u_refs u_revs u_locks u_queue u_cs u_uid u_threads u_published t_req t_pc t_postings t_unb t_view t_entry t_txid t_granted t_resp t_gen b_ik b_ref b_lock b_rev b_pre andb orb negb recheck mem_N mem_nat existsb is_tx_kind is_rev app filter fst snd] in *.
+
+Ltac atom c :=
+  lazymatch c with
+  | negb ?x => atom x
+  | andb ?x _ => atom x
+  | orb ?x _ => atom x
+  | match ?x with _ => _ end => atom x
+  | _ => c
+  end.
+Ltac csplit := repeat match goal with |- _ /\ _ => split end.
+Ltac facts :=
+  repeat match goal with
+  | H : _ /\ _ |- _ => destruct H
+  | H : exists _, _ |- _ => destruct H
+  | H : ?a = ?b -> _, H' : ?a = ?b |- _ => specialize (H H')
+  | H : true = true -> _ |- _ => specialize (H eq_refl)
+  | H : _ :: _ <> [] -> _ |- _ => specialize (H ltac:(discriminate))
+  | H : ?c = _, H' : context [match ?c with _ => _ end] |- _ => rewrite H in H'; d_cbn
+  end.
+Ltac use_eq c :=
+  match goal with
+  | H : c = _ |- _ => rewrite H
+  end.
+Ltac head_step :=
+  d_cbn;
+  lazymatch goal with
+  | |- match _ with _ => _ end =>
+      match goal with |- ?G =>
+        let c := atom G in
+        first [ rewrite e3_compatible_nil | rewrite e3_same_kind_match | use_eq c | destruct c eqn:?; try congruence ] end
+  end.
+Ltac inner_step :=
+  d_cbn; rewrite ?Nat.eqb_refl, ?entry_persisted_app; facts;
+  match goal with
+  | |- context [match ?c0 with _ => _ end] =>
+      let c := atom c0 in
+      first [ use_eq c | destruct c eqn:?; try congruence ]
+  end.
+
+Ltac thf :=
+  try match goal with H : t_postings _ = _ |- _ => rewrite ?H end;
+  try match goal with H : t_unb _ = _ |- _ => rewrite ?H end;
+  try match goal with H : t_view _ = _ |- _ => rewrite ?H end;
+  try match goal with H : eff_ps _ _ = _ |- _ => rewrite ?H end;
+  try match goal with H : persisted _ = persisted _ |- _ => rewrite ?H end;
+  try match goal with H : v_lasttx _ = v_lasttx _ |- _ => rewrite ?H end.
+Lemma si_step : forall s0 t q s th, SI s0 t q s th -> t_pc th <> PFinished ->
+  match next s t with
+  | Some s' => exists th', SI s0 t q s' th' /\ (rank s' th' < rank s th)%nat
+  | None => False
+  end.
+Proof.
+  intros s0 t q s th [Hget Hreq Hgen Hgen0 Hoth Hq Hiks Hrefs Hrevs Hlocks Hst Hsym] Hnf.
+  subst q. unfold next, resume, persist_ok. rewrite Hget, Hgen, Nat.eqb_refl. cbn [negb]. cbv zeta.
+  unfold st_sym, th_sym in *.
+  destruct (rq_dry (t_req th)) eqn:Hdry; destruct (t_pc th) eqn:Hpc; d_cbn; try contradiction; try congruence;
+  unfold P_late, P_run, P_txid, P_ik, P_ref, P_rev, qcov, core_same in *;
+  repeat match goal with H : _ /\ _ |- _ => destruct H | H : exists _, _ |- _ => destruct H | H : _ \/ _ |- _ => destruct H end.
+  all: repeat match goal with H : ?v = _ |- _ => is_var v; subst v end.
+  all: try match goal with H : t_postings _ = _ |- _ => rewrite H in Hlocks end.
+  all: try match goal with H : t_postings _ = _ |- _ => rewrite ?H end.
+  all: try match goal with H : t_unb _ = _ |- _ => rewrite ?H end.
+  all: try match goal with H : t_view _ = _ |- _ => rewrite ?H end.
+  all: rewrite ?Hlocks.
+  all: repeat head_step.
+  all: unfold enter_run, enter_exec, unlock; d_cbn; rewrite ?Hiks, ?Hrefs, ?Hq; d_cbn.
+  all: try match goal with H : persisted _ = persisted _ |- _ => rewrite ?H end.
+  all: try match goal with H : v_lasttx _ = v_lasttx _ |- _ => rewrite ?H end.
+  all: repeat inner_step.
+  all: eexists; (split; [constructor|]).
+  all: try solve [d_cbn; apply e3_get_set_same].
+  all: try solve [reflexivity | assumption].
+  all: try solve [intros w Hw; d_cbn; rewrite e3_get_set_other by exact Hw; apply Hoth; exact Hw].
+  all: try solve [unfold rank; d_cbn; rewrite ?Hpc; cbn [pcrank]; repeat inner_step; lia].
+  all: try solve [d_cbn; rewrite ?Hpc; d_cbn; rewrite ?Hiks, ?Hrefs, ?Hrevs, ?Hlocks; thf; unfold is_rev in *; repeat inner_step; d_cbn;
+                  rewrite ?e3_remove_N_single, ?e3_remove_nat_single, ?Nat.eqb_refl; d_cbn; try reflexivity; try congruence;
+                  destruct (rq_kind (t_req th)); d_cbn; congruence].
+  all: try solve [unfold st_sym, core_same; d_cbn; rewrite ?Hpc, ?Hdry; d_cbn; csplit; try assumption; try reflexivity; eauto using entry_persisted_app; eexists; csplit; eauto using entry_persisted_app].
+  all: try solve [unfold th_sym, P_late, P_run, P_txid, P_ik, P_ref, P_rev, P_tgt, answer, answer_run, answer_exec, qcov; d_cbn; rewrite ?Hpc; d_cbn; thf;
+                  unfold eff_ps, is_rev in *;
+                  repeat inner_step; d_cbn; unfold P_tgt in *; facts; try congruence; csplit; try assumption; try reflexivity; try congruence; auto;
+                  intros; csplit; try assumption; try reflexivity; try congruence; eauto;
+                  unfold qview, eff_ps; repeat inner_step; reflexivity].
+Qed.
+
+Lemma si_start : forall s0 t q, quiescent s0 -> get_thread (threads s0) t = None ->
+  match start s0 t q with
+  | Some s1 => exists th, SI s0 t q s1 th
+  | None => False
+  end.
+Proof.
+  intros s0 t q (Qp & Qb & Qi & Qr & Qv & Ql & Qq & Qc & Qt) Hnone.
+  unfold start. rewrite Hnone. cbv zeta. rewrite Qv.
+  destruct (rq_dry q) eqn:Hdry.
+  all: repeat head_step.
+  all: unfold enter_run, enter_exec; d_cbn; rewrite ?Qi, ?Qr, ?Qv; d_cbn.
+  all: repeat inner_step.
+  all: eexists; constructor.
+  all: try solve [d_cbn; apply e3_get_set_same].
+  all: try solve [reflexivity | assumption].
+  all: try solve [intros w Hw; d_cbn; rewrite e3_get_set_other by exact Hw; reflexivity].
+  all: try solve [d_cbn; rewrite ?Qi, ?Qr, ?Qv, ?Ql; unfold is_rev in *; repeat inner_step; d_cbn;
+                  rewrite ?e3_remove_N_single, ?e3_remove_nat_single, ?Nat.eqb_refl; d_cbn; try reflexivity; try congruence;
+                  destruct (rq_kind q); d_cbn; congruence].
+  all: try solve [unfold st_sym, core_same; d_cbn; rewrite ?Hdry; d_cbn; csplit; try assumption; try reflexivity].
+  all: try solve [unfold th_sym, P_late, P_run, P_txid, P_ik, P_ref, P_rev, P_tgt, answer, answer_run, answer_exec, qcov; d_cbn;
+                  unfold eff_ps, is_rev in *;
+                  repeat inner_step; d_cbn; unfold P_tgt in *; facts; try congruence; csplit; try assumption; try reflexivity; try congruence; auto;
+                  intros; csplit; try assumption; try reflexivity; try congruence; eauto].
+Qed.
+
+(* ---- the driver reaches the end within its fuel ------------------------------------------------------------------ *)
+Definition is_fin (p : pc) : bool := match p with PFinished => true | _ => false end.
+
+Lemma drive_unfold2 : forall k s t th, get_thread (threads s) t = Some th ->
+  drive (S k) s t = if is_fin (t_pc th) then s else match next s t with Some s' => drive k s' t | None => s end.
+Proof. intros k s t th H. rewrite drive_unfold, H. destruct (t_pc th); reflexivity. Qed.
+
+Lemma si_drive : forall n s0 t q s th, SI s0 t q s th -> (rank s th < n)%nat ->
+  exists th', SI s0 t q (drive n s t) th' /\ t_pc th' = PFinished.
+Proof.
+  induction n as [|n IH]; intros s0 t q s th HSI Hr; [lia|].
+  rewrite (drive_unfold2 n s t th (si_get _ _ _ _ _ HSI)).
+  destruct (is_fin (t_pc th)) eqn:Hf.
+  - exists th. split; [exact HSI|]. destruct (t_pc th); try discriminate Hf. reflexivity.
+  - assert (Hnf : t_pc th <> PFinished) by (intros E; rewrite E in Hf; discriminate Hf).
+    pose proof (si_step s0 t q s th HSI Hnf) as Hs.
+    destruct (next s t) as [s'|]; [|contradiction].
+    destruct Hs as (th' & HSI' & Hlt). apply (IH s0 t q s' th' HSI'). lia.
+Qed.
+
+Lemma si_submit : forall s0 t q, quiescent s0 -> get_thread (threads s0) t = None ->
+  exists th, SI s0 t q (submit s0 t q) th /\ t_pc th = PFinished.
+Proof.
+  intros s0 t q Hq Hn. unfold submit. pose proof (si_start s0 t q Hq Hn) as Hs.
+  destruct (start s0 t q) as [s1|]; [|contradiction]. destruct Hs as (th & HSI).
+  apply (si_drive 64 s0 t q s1 th HSI). pose proof (rank_bound s1 th). lia.
+Qed.
+
+(* ---- C14: the preview is a stutter step, and answers what the real write answers ------------------------------------ *)
+Theorem e3_answer : forall s t q, quiescent s -> get_thread (threads s) t = None ->
+  exists th, get_thread (threads (submit s t q)) t = Some th /\
+             t_resp th = Some (answer (persisted s) (v_lasttx s) q).
+Proof.
+  intros s t q Hq Hn. destruct (si_submit s t q Hq Hn) as (th & HSI & Hpc).
+  exists th. split; [exact (si_get _ _ _ _ _ HSI)|].
+  pose proof (si_sym _ _ _ _ _ HSI) as H. unfold th_sym in H. rewrite Hpc in H. exact H.
+Qed.
+
+Theorem e3_stutter : forall s t q, quiescent s -> get_thread (threads s) t = None -> rq_dry q = true ->
+  observe (submit s t q) = observe s /\ quiescent (submit s t q) /\
+  gen (submit s t q) = gen s /\ v_uid (submit s t q) = v_uid s /\
+  (forall w, w <> t -> get_thread (threads (submit s t q)) w = get_thread (threads s) w) /\
+  (exists th, get_thread (threads (submit s t q)) t = Some th /\ t_pc th = PFinished).
+Proof.
+  intros s t q Hq Hn Hdry. destruct (si_submit s t q Hq Hn) as (th & HSI & Hpc).
+  destruct HSI as [Hget Hreq Hgen Hgen0 Hoth Hqu Hiks Hrefs Hrevs Hlocks Hst Hsym].
+  unfold st_sym in Hst. rewrite Hdry in Hst. destruct Hst as (C1 & C2 & C3 & C4 & C5 & C6 & C7 & C8).
+  rewrite Hpc in Hiks, Hrefs, Hrevs, Hlocks. cbn in Hiks, Hrefs, Hrevs, Hlocks.
+  destruct Hq as (Qp & Qb & Qi & Qr & Qv & Ql & Qq & Qc & Qt).
+  split; [|split; [|split; [exact Hgen0|split; [exact C7|split; [exact Hoth|exists th; auto]]]]].
+  - unfold observe. rewrite C1, C2, C3, C4, C5, C6, C8, Hiks, Hrefs, Hrevs, Hlocks, Hqu, Qp, Qb, Qi, Qr, Qv, Ql, Qq, Qc.
+    reflexivity.
+  - unfold quiescent. rewrite C4, C5, C6, Hiks, Hrefs, Hrevs, Hlocks, Hqu. repeat split; try reflexivity.
+    intros w thw Hw. destruct (Nat.eq_dec w t) as [->|Hne].
+    + rewrite Hget in Hw. inversion Hw; subst thw. exact Hpc.
+    + rewrite (Hoth w Hne) in Hw. eapply Qt; eauto.
+Qed.
+
+Definition with_dry (q : request) (b : bool) : request :=
+  {| rq_kind := rq_kind q; rq_ik := rq_ik q; rq_ref := rq_ref q; rq_dry := b; rq_postings := rq_postings q;
+     rq_unb := rq_unb q; rq_revert := rq_revert q; rq_target_tx := rq_target_tx q |}.
+
+Lemma answer_with_dry : forall log ltx q b, answer log ltx (with_dry q b) = answer log ltx q.
+Proof. reflexivity. Qed.
+
+Theorem e3_answer_same : forall s t q, quiescent s -> get_thread (threads s) t = None ->
+  exists th th', get_thread (threads (submit s t (with_dry q true))) t = Some th /\
+                 get_thread (threads (submit s t (with_dry q false))) t = Some th' /\
+                 t_resp th = t_resp th' /\ t_resp th = Some (answer (persisted s) (v_lasttx s) q).
+Proof.
+  intros s t q Hq Hn.
+  destruct (e3_answer s t (with_dry q true) Hq Hn) as (th & G & R).
+  destruct (e3_answer s t (with_dry q false) Hq Hn) as (th' & G' & R').
+  exists th, th'. rewrite answer_with_dry in R, R'. repeat split; auto. congruence.
+Qed.
